@@ -3,7 +3,7 @@ bookkeeping state canonically, render ops as literals of Model/Func.v, and evalu
 (I1..I6) on the dumped implementation state with exact Fractions.
 
 Op (JSON-able nested lists / tuples):
-  ["NewPoint"] ["NewExpr"] ["NewLeaf", reuse] ["Combine", [[fid, q], ...]]
+  ["NewPoint"] ["NewExpr"] ["NewLeaf", reuse] ["Combine", [[fid, q], ...]] ["Direct", [[leaf fid, q], ...], reuse]
   ["Oracle", fid, ptree] ["Gradient", fid, ptree] ["Value", fid, ptree] ["Stationary", fid] ["Fixed", fid]
   ["AddPoint", fid, xtree, gtree, [[eid, q], ...]]
 ptree = a point tree of harness/terms.py over PVar k = the leaf point whose Point.counter is k; it is
@@ -42,7 +42,7 @@ def is_pow2(fr):
 
 class World(object):
     """one PEP()-fresh universe of real PEPit objects.
-    repair: a set of "prune-weights" (prune a composite's weights right after construction and recompute its flag),
+    repair: a set of "prune-weights" (prune a composite's weights right after construction),
             "prune-queries" (prune a query point before the call), "skip-zero-function" (ignore stationary_point /
             fixed_point / add_point on a composite all of whose weights cancel) -- used to decide whether a violation
             is exactly one of the listed findings (the violation must disappear under the matching repair)."""
@@ -159,6 +159,29 @@ class World(object):
             p.decomposition_dict = prune_dict(p.decomposition_dict)
         return p
 
+    def scoped(self, op):
+        """the side condition op_scoped of Model/Func.v that concerns the CALLER (not guaranteed by Python itself):
+        an explicit constructor dictionary is over distinct leaf functions and is not declared differentiable with a
+        non-differentiable term; add_point is called on a point not yet recorded for the function or its terms.
+        (Shrinking drops ops and thereby shifts ids: a candidate that stops being well scoped is not a smaller
+        instance of the same failure.)"""
+        from PEPit import Point
+        from PEPit.tools.dict_operations import prune_dict
+        k = op[0]
+        if k == "Direct":
+            ks = [f for f, _ in op[1]]
+            if len(set(ks)) != len(ks) or not all(0 <= f < len(self.funcs) and self.funcs[f].get_is_leaf() for f in ks):
+                return False
+            return (not op[2]) or all(self.funcs[f].reuse_gradient for f in ks)
+        if k == "Combine":
+            return len(op[1]) > 0 and all(0 <= f < len(self.funcs) for f, _ in op[1])
+        if k == "AddPoint":
+            f = self.funcs[op[1]]
+            x = self.build_point(op[2])
+            probe = Point(is_leaf=False, decomposition_dict=prune_dict(x.decomposition_dict))
+            return all(g._is_already_evaluated_on_point(probe) is None for g in [f] + list(f.decomposition_dict))
+        return True
+
     def apply(self, op):
         """run one op on the real objects.  Returns (coq literal of the op AS SEEN BY THE MODEL, dump of what the
         call returned)."""
@@ -179,11 +202,19 @@ class World(object):
         if k == "Combine":
             F = self.build_combo(op[1])
             if "prune-weights" in self.repair:
-                # the composite as it would be if zero-weight terms were dropped at construction
+                # the composite as it would be if a bare zero scaling dropped its zero weights at construction
                 F.decomposition_dict = prune_dict(F.decomposition_dict)
-                F.reuse_gradient = all(k.reuse_gradient for k in F.decomposition_dict)
             self._register(F)
             return "(Combine %s)" % coq_list(["(%s, %s)" % (coq_nat(f), coq_q(q)) for f, q in op[1]]), []
+        if k == "Direct":
+            # the documented constructor call with an explicit dictionary over leaf functions
+            F = Function(is_leaf=False, decomposition_dict={self.funcs[f]: q for f, q in op[1]},
+                         reuse_gradient=bool(op[2]))
+            if "prune-weights" in self.repair:
+                F.decomposition_dict = prune_dict(F.decomposition_dict)
+            self._register(F)
+            return "(Direct %s %s)" % (coq_list(["(%s, %s)" % (coq_nat(f), coq_q(q)) for f, q in op[1]]),
+                                       "true" if op[2] else "false"), []
         if k in ("Oracle", "Gradient", "Value"):
             f = self.funcs[op[1]]
             p = self._query(op[2])
@@ -233,7 +264,11 @@ def coq_edict(d):
     return coq_list(["(%s, %s)" % (coq_ekey(k), coq_q(v.v)) for k, v in d])
 
 
-def run_ops(ops, full=True, repair=None, check=None):
+class NotScoped(Exception):
+    pass
+
+
+def run_ops(ops, full=True, repair=None, check=None, strict=False):
     """run an op list on the real PEPit.  Returns (coq input literal, expected dump, states) where
     the dump has the shape of Func.trace: [[ [ret, state-or-[]] per op ], final state].
     check(world, i, op, state_dump) may return a violation dict; the first one stops the run and is returned as
@@ -242,6 +277,8 @@ def run_ops(ops, full=True, repair=None, check=None):
     lits, per_op = [], []
     viol = None
     for i, op in enumerate(ops):
+        if strict and not w.scoped(op):
+            raise NotScoped(op)
         lit, ret = w.apply(op)
         lits.append(lit)
         need_state = full or check is not None
@@ -349,9 +386,10 @@ def check_inv(state, val, world=None, max_combos=200000):
         for k, q in w:
             if not funs[k][0]:
                 return dict(clause="I0", function=fi, why="composite weight over a non-leaf")
-        want_reuse = all(funs[k][1] for k, _ in w)
-        if bool(reuse) != want_reuse:
-            return dict(clause="I6", function=fi, why="reuse_gradient is not the conjunction of the terms' flags")
+        # a sum declared differentiable must only have differentiable terms (the converse may fail: the flag is
+        # and-ed over all operands, also cancelled ones, and a sum MAY be declared non-differentiable)
+        if reuse and not all(funs[k][1] for k, _ in w):
+            return dict(clause="I6", function=fi, why="sum declared differentiable with a non-differentiable term")
         for si, (x, g, v) in enumerate(pts):
             gF, vF = val.evalP(g), val.evalE(v)
             cands = []
